@@ -59,7 +59,10 @@ impl<'a> Chooser<'a> {
 			1 => (lo + 1).min(hi),
 			2 => hi,
 			3 => hi.saturating_sub(1).max(lo),
-			4 | 5 if self.wide => lo + (w / 16) % span,
+			// anywhere in the span (also when small periods are preferred: a defect confined to mid-range periods,
+			// e.g. a cast that breaks from 128 on, must stay reachable)
+			4 => lo + (w / 16) % span,
+			5 if self.wide => lo + (w / 16) % span,
 			_ => lo + (w / 16) % span.min(if self.wide { 60 } else { 24 }),
 		}
 	}
